@@ -15,6 +15,7 @@ KINDS_FOR = {
     "C18": ["buf", "flt", "cconv", "sconv"],
     "C20": ["fls", "flt", "cconv", "sconv", "buf"],
     "C14": ["fls", "flt"],
+    "C12": ["cconv", "sconv"],
 }
 
 PRIO_ALPHABETS = [[0], [0, 1], [-1, 0, 0, 2], [0, 0, 1], [-2, -1, 0, 1, 2], [5, 5, 5, 1]]
@@ -31,6 +32,7 @@ PROFILE = {
     "C18": dict(rp=2.5, rg=2.5, put=3.0, get=2.5, cancel=0.6, adv=2.5, mis=0.0, probe=0.0),
     "C20": dict(rp=3.0, rg=2.5, put=3.0, get=2.0, cancel=1.0, adv=3.0, mis=0.0, probe=0.0),
     "C14": dict(rp=3.5, rg=2.0, put=4.0, get=2.0, cancel=0.4, adv=3.5, mis=0.0, probe=0.0),
+    "C12": dict(rp=2.5, rg=3.0, put=3.0, get=2.0, cancel=2.0, adv=3.0, mis=0.0, probe=0.0),
 }
 
 
